@@ -33,12 +33,16 @@ var c06Commands = []struct {
 	{"replace all (digit = d) with d d", true},                            // captures
 	{"set f to transform return matchLength end\nreplace all at least 1 letter with f", true},
 	{"replace all 'a' with 'b'\nreplace all 'b' with 'c'", true},          // two commands on the same files
+	{"replace all 'ab' with 'ab'", true},                                  // replacement identical to the match
+	{"replace all (at least 1 digit) = d with d", true},                   // identical through a capture
+	{"replace all caseless 'ab' with 'ab'", true},                         // identical for some matches only
+	{"replace all 'b' with 'b' 'b'", true},                                // identical prefix, then longer
 	{"find all 'ab'", false},
 	{"find all at least 1 letter", false},
 }
 
 func c06Content(rng *gen.Rng, size int) []byte {
-	alpha := []byte("abab ab\nb a1 2aab\r\nba")
+	alpha := []byte("abab ab\nb a1 2aAB\r\nbaAb")
 	b := make([]byte, size)
 	for i := range b {
 		b[i] = alpha[rng.Intn(len(alpha))]
@@ -108,7 +112,7 @@ func C06(r *drv.Run) {
 		n = 9000
 		ncli = 250
 	}
-	r.Rule = "RunFiles on scratch directories: 14 commands (replacement shorter / longer / empty, zero matches, adjacent matches, match at offset 0 and at EOF, captures, a transform, two commands over the same files, find commands) x 1..2 files of sizes 0, 1, 7, 40, 200, 4095..4097, 8191, 8193, 10 000 x {NOTHING, NEW, OVERWRITE}, with stale longer .vored files and bystander files present. Oracle: directory snapshot (type, size, mode, SHA-256, inode) before/after must differ by exactly the change set the mode allows, and the written text must equal the splice of the original bytes with the replacements of the in-memory run at its spans; every file the library opens for writing (hook H5) must be in the allowed set. Thorough tier additionally drives the built CLI under strace and checks every path opened for writing/creating/truncating, renamed, unlinked or truncated. Non-trivial = a replace run with >= 1 match in mode NEW or OVERWRITE whose output was verified; distinct by (command, layout, mode)."
+	r.Rule = "RunFiles on scratch directories: 18 commands (replacement shorter / longer / empty / identical to the matched text, zero matches, adjacent matches, match at offset 0 and at EOF, captures, a transform, two commands over the same files, find commands) x 1..2 files of sizes 0, 1, 7, 40, 200, 4095..4097, 8191, 8193, 10 000 x {NOTHING, NEW, OVERWRITE}, with stale longer .vored files and bystander files present. Oracle: directory snapshot (type, size, mode, SHA-256, inode) before/after must differ by exactly the change set the mode allows, and the written text must equal the splice of the original bytes with the replacements of the in-memory run at its spans; every file the library opens for writing (hook H5) must be in the allowed set. Thorough tier additionally drives the built CLI under strace and checks every path opened for writing/creating/truncating, renamed, unlinked or truncated. Non-trivial = a replace run with >= 1 match in mode NEW or OVERWRITE whose output was verified; distinct by (command, layout, mode)."
 	r.Assumptions = []string{
 		"the spans and replacements spliced are those of Run on the same bytes (C01/C05/C07 judge those)",
 		"with two replace commands in one source each command rewrites from the file as the previous command left it (OVERWRITE) or from the unchanged source (NEW): the expected text is computed accordingly",
